@@ -199,12 +199,24 @@ def _sink(asgi, tag):
     return sink
 
 
+class SharedResource(object):
+    """One class, many instances: the responders are per-INSTANCE attributes (bound in the constructor, as an
+    application would do for e.g. a read-only and a writable flavour of the same resource class)."""
+
+    def __init__(self, responders):
+        import types
+        for name, fn in responders.items():
+            setattr(self, name, types.MethodType(fn, self))
+
+
 def make_resource(op, i, asgi):
     ns = {}
     for m in op['m']:
         ns['on_' + m.lower()] = _responder(asgi, ['route', i, m, None])
     for m in op['mx']:
         ns['on_' + m.lower() + '_x'] = _responder(asgi, ['route', i, m, 'x'])
+    if op.get('inst'):
+        return SharedResource(ns)
     return type('Res%d' % i, (), ns)()
 
 
@@ -492,6 +504,8 @@ def _apps(draw):
     ops = (draw(st.lists(_route_op(), max_size=4)) + draw(st.lists(_sink_op(), max_size=3))
            + draw(st.lists(_static_op(), max_size=2)))
     ops = draw(st.permutations(ops))
+    if draw(st.integers(0, 3)) == 0:
+        ops = [dict(o, inst=True) if o['k'] == 'route' else o for o in ops]
     # half of the requests aim at paths that some registered template matches (generator-side bias only)
     hot = sorted(set(pi for op in ops if op['k'] == 'route' for pi in TEMPLATE_HITS[op['t']]))
     anypath = st.integers(0, len(PATHS) - 1)
